@@ -21,3 +21,20 @@ for _pid in ("C05", "C04", "C16"):
         else:
             assert _GEN7_OTHER_OLD in LEVEL[_pid]["text"]
             LEVEL[_pid]["text"] = LEVEL[_pid]["text"].replace(_GEN7_OTHER_OLD, _GEN7_OTHER_NEW)
+
+# Task 2 of "gen7": zwSearch regenerated (gen/zw.go, Generated/FuncsZw.lean) - EXECUTED ONLY.
+_GEN7_ZW_TECH = ("; zwSearch itself regenerated from ai/minimax.go on every run (Generated/FuncsZw.lean) and executed against the real function (fn.zwsearch), no bridge theorem")
+_GEN7_ZW_TEXT = (" zwSearch REGENERATED, EXECUTED AGAINST THE REAL FUNCTION, NO BRIDGE THEOREM: Generated/FuncsZw.lean holds (*MinimaxAI).zwSearch of ai/minimax.go as a whole (translator round 7, gen/zw.go: recursion on a fuel "
+                 "argument, the engine state - history, response, Stats, the frame moves / pv buffers / table-entry copies, the table - threaded through as a tuple, the position a value of a type parameter whose "
+                 "views and oracles are function parameters, the calls of ttGet / ttPut / teSuffices / nullMoveOK / recordCut / moveGenerator.Next / Reset going to their regenerated definitions). No theorem "
+                 "mentions it: the search theorems remain theorems about the hand mirror Impl/Minimax.lean, which is tied by the property ops. The op fn.zwsearch (generator FNZW, about 320 ops per quick run) "
+                 "runs the real zwSearch on a NewMinimax engine (3x3 / 4x4 positions, depths -1..4, two calls in a row, all 8 combinations of NoNullMove / NoReduceSlides / MultiCut, tables nil / 0 / 1 / 2 / 7 / 64 / "
+                 "1021 entries, cut both ways, pv hints) against the regenerated definition and compares value, returned pv, every Stats counter, the full table, the response and history maps, the 15 frame moves and "
+                 "the frame's pv buffer. Not exercised there: NoSort is always on (sortMoves is an oracle instantiated with the identity), the cancel flag is never set. Declared assumptions of the translation: "
+                 "the Debug logging blocks are skipped, every atomic load of the cancel flag in one call returns one value, slices crossing the recursive call have value semantics.")
+for _pid in ("C05", "C04", "C16"):
+    if _pid in LEVEL:
+        LEVEL[_pid]["text"] += _GEN7_ZW_TEXT if _pid == "C05" else (" Since round 7 zwSearch itself is regenerated (Generated/FuncsZw.lean) and EXECUTED against the real function by fn.zwsearch (generator FNZW runs here too); "
+                                                                     "there is no bridge theorem for it.")
+        if _pid == "C05":
+            LEVEL[_pid]["technique"] += _GEN7_ZW_TECH
